@@ -48,24 +48,24 @@ type fault struct {
 
 // buildEnv carries the scripted world and records everything the builder asks for.
 type buildEnv struct {
-	w        *gen.World
-	pkgs     []sourceaddrs.RemotePackage
-	regs     []regaddr.ModulePackage
-	finders  []*hFinder
-	mu       sync.Mutex
-	log      []evt
-	calls    int // callback ordinal
-	limit    int // abort when exceeded (logical non-termination bound)
-	aborted  bool
-	faults   []fault
-	faulted  []int // ordinals actually faulted
-	faultedAdd []int // index (in call order) of the Add call that was running when each fault fired
-	kinds    []string // kind of callback per ordinal (index ordinal-1)
+	w          *gen.World
+	pkgs       []sourceaddrs.RemotePackage
+	regs       []regaddr.ModulePackage
+	finders    []*hFinder
+	mu         sync.Mutex
+	log        []evt
+	calls      int // callback ordinal
+	limit      int // abort when exceeded (logical non-termination bound)
+	aborted    bool
+	faults     []fault
+	faulted    []int    // ordinals actually faulted
+	faultedAdd []int    // index (in call order) of the Add call that was running when each fault fired
+	kinds      []string // kind of callback per ordinal (index ordinal-1)
 	currentAdd int
-	yield    func()
-	onCall   func(ordinal int, phase string) // crash-point hook: "enter" / "exit"
-	problems []string                        // harness-side observations (finder saw wrong content, ...)
-	diagSeen []sourcebundle.Diagnostics      // what the tracer's Diagnostics callback received
+	yield      func()
+	onCall     func(ordinal int, phase string) // crash-point hook: "enter" / "exit"
+	problems   []string                        // harness-side observations (finder saw wrong content, ...)
+	diagSeen   []sourcebundle.Diagnostics      // what the tracer's Diagnostics callback received
 }
 
 func newBuildEnv(w *gen.World) (*buildEnv, error) {
@@ -224,7 +224,12 @@ func (be *buildEnv) FetchSourcePackage(ctx context.Context, sourceType string, u
 			return resp, fmt.Errorf("harness: cannot materialise package extras: %w", err)
 		}
 	}
-	if p.Commit != "" {
+	switch {
+	case p.MetaMode == "message-only":
+		resp.PackageMeta = sourcebundle.PackageMetaWithGitMetadata("", "message without commit id")
+	case p.MetaMode == "empty":
+		resp.PackageMeta = sourcebundle.PackageMetaWithGitMetadata("", "")
+	case p.Commit != "":
 		resp.PackageMeta = sourcebundle.PackageMetaWithGitMetadata(p.Commit, p.Message)
 	}
 	return resp, nil
@@ -477,21 +482,21 @@ func (be *buildEnv) tracer() *sourcebundle.BuildTracer {
 // ---- running a build ---------------------------------------------------------------------
 
 type addResult struct {
-	Add    gen.Add
-	Diags  sourcebundle.Diagnostics
-	Panic  string
-	Tag    string
+	Add   gen.Add
+	Diags sourcebundle.Diagnostics
+	Panic string
+	Tag   string
 }
 
 type buildResult struct {
-	be       *buildEnv
-	Dir      string
-	Adds     []addResult
-	Bundle   *sourcebundle.Bundle
-	CloseErr error
+	be         *buildEnv
+	Dir        string
+	Adds       []addResult
+	Bundle     *sourcebundle.Bundle
+	CloseErr   error
 	ClosePanic string
-	NewErr   error
-	Builder  *sourcebundle.Builder
+	NewErr     error
+	Builder    *sourcebundle.Builder
 }
 
 func (r *buildResult) hasErrors() bool {
@@ -661,13 +666,13 @@ type artifact struct {
 }
 
 type refClosure struct {
-	Arts     map[artifact]bool
-	Pkgs     map[int]bool
-	RegSel   map[int]map[string]bool // registry index -> selected versions
-	RegUsed  map[int]bool
-	Find     map[string]int // content|sub|finder -> expected number of analyses
-	Problem  string         // non-empty: the world is not fault-free (unsatisfiable / escaping)
-	Events   int
+	Arts    map[artifact]bool
+	Pkgs    map[int]bool
+	RegSel  map[int]map[string]bool // registry index -> selected versions
+	RegUsed map[int]bool
+	Find    map[string]int // content|sub|finder -> expected number of analyses
+	Problem string         // non-empty: the world is not fault-free (unsatisfiable / escaping)
+	Events  int
 }
 
 // semverLess is the harness's own precedence comparison (semver 2.0.0 §11).
